@@ -136,6 +136,18 @@ def native_runs(cdef, interp, seed, n_runs, inputs=None):
                 break
             continue
         except Exception as e:
+            # an exception raised INSIDE the library (innermost Python frame in the repository's package) on inputs the
+            # harness considers valid is a failed run-time contract, not a broken checker
+            frames = traceback.extract_tb(e.__traceback__)
+            inner = [f.filename for f in frames if "/site-packages/" not in f.filename and "/lib/python" not in f.filename]
+            if inner and "/inference/" in inner[-1] and "/verif/" not in inner[-1]:
+                res["failures"].extend(vc.failures)
+                res["failures"].append({"obligation": f"{cdef.prop}.{cdef.name}.no_unexpected_raise",
+                                        "why": f"library raised {type(e).__name__}: {str(e)[:200]}", "inputs": dict(vc.inputs)})
+                res["runs"] += 1
+                if inputs is not None:
+                    break
+                continue
             res["errors"].append(f"{type(e).__name__}: {e}\n{traceback.format_exc(limit=6)}")
             if len(res["errors"]) > 3 or inputs is not None:
                 break
@@ -175,6 +187,7 @@ def match_known(known, obligation, inputs=None):
 def run(prop, tier="quick", seed=0, replay=None, only=None):
     t0 = time.time()
     contracts = load_contracts(prop)
+    all_contracts = list(contracts)
     if only:
         contracts = [c for c in contracts if c.name in only]
     if not contracts:
@@ -315,13 +328,22 @@ def run(prop, tier="quick", seed=0, replay=None, only=None):
             found = None
             rcd = cd
             if cd.replay_with:
-                rcd = [c for c in contracts if c.name == cd.replay_with][0]
+                rcd = [c for c in all_contracts if c.name == cd.replay_with][0]
             if ob.values and rcd.native:
                 r = native_runs(rcd, None, 0, 1, inputs=ob.values)
                 for f in r["failures"]:
                     found = f
                     cdname = rcd.name
                     break
+            if not found and cd.replay_with:
+                # the abstract counter-model has no concrete inputs of its own: a failing input of the bounded
+                # companion harness found in this run (or searched for now) is the replayable witness on the real code
+                pool_ = list(nat.get(rcd.name, {}).get("failures", []))
+                if not pool_:
+                    pool_ = native_runs(rcd, None, seed * 7919 + 17, 200)["failures"]
+                if pool_:
+                    found = pool_[0]
+                    cdname = rcd.name
             if found:
                 path = write_replay(prop, found["obligation"], cdname, found["inputs"], found["why"], ob)
                 violations.append((name, path, True))
